@@ -8,7 +8,7 @@ from ..model import Model, numel
 from ..seeds import digest
 from ..shrinkspec import spec_candidates
 from ..spec import gen_mtl, gen_program, pick_outputs
-from ..world import EPS, World, compare, default_inputs_backward, default_params_mtl, expect_backward, expect_mtl, gen_sched, run_call
+from ..world import spec_eps, EPS, World, compare, default_inputs_backward, default_params_mtl, expect_backward, expect_mtl, gen_sched, run_call
 
 ID = "C12"
 LEVEL = "exploration"
@@ -86,7 +86,7 @@ def generate(rng, tier, index):
 
 def execute(scn):
     spec, call = scn["spec"], copy.deepcopy(scn["call"])
-    eps = EPS[spec["dtype"]]
+    eps = spec_eps(spec)
     model = Model(spec)
     stats, events, viols, sets = {}, [], [], {}
     explicit = copy.deepcopy(call)
